@@ -821,3 +821,117 @@ Theorem indent_first_line : forall c last l,
    let '(off, extra) := align_params c (indent c) last v in
    walk (em c) extra (x0 c + zq (indent c) + off) None v).
 Proof. reflexivity. Qed.
+
+(* ------------------------------------------------------------------ item-level reading *)
+(* A division of the ITEM list into lines whose boundaries are all cut positions is a
+   grouping of the units: this is what lets break_unique speak about any division that
+   never breaks at a forbidden position. *)
+Local Open Scope Z_scope.
+
+Lemma concat_split {A} : forall (us : list (list A)) p s,
+  concat us = p ++ s ->
+  (exists a b, us = a ++ b /\ concat a = p /\ concat b = s) \/
+  (exists a u b x y, us = a ++ u :: b /\ u = x ++ y /\ x <> [] /\ y <> [] /\
+                     p = concat a ++ x /\ s = y ++ concat b).
+Proof.
+  induction us as [|u r IH]; intros p s H.
+  - simpl in H. symmetry in H. apply app_eq_nil in H. destruct H; subst.
+    left. exists [], []. auto.
+  - simpl in H. apply app_eq_app in H. destruct H as [l [[H1 H2]|[H1 H2]]].
+    + (* u = p ++ l *)
+      destruct p as [|p0 p'].
+      * left. exists [], (u :: r). simpl in *. subst. auto.
+      * destruct l as [|l0 l'].
+        -- left. exists [u], r. rewrite app_nil_r in H1. simpl in *. subst.
+           rewrite app_nil_r. auto.
+        -- right. exists [], u, r, (p0 :: p'), (l0 :: l'). simpl.
+           repeat split; auto; discriminate.
+    + (* p = u ++ l *)
+      destruct (IH l s H2) as [[a [b [E1 [E2 E3]]]]|[a [v [b [x [y [E1 [E2 [E3 [E4 [E5 E6]]]]]]]]]]].
+      * left. exists (u :: a), b. subst. simpl. auto.
+      * right. exists (u :: a), v, b, x, y. subst. simpl. rewrite <- app_assoc.
+        repeat split; auto.
+Qed.
+
+Lemma cut_is_unit_boundary : forall items p s, items = p ++ s ->
+  cut_b (rev p) s = true -> exists a b, units items = a ++ b /\ concat a = p /\ concat b = s.
+Proof.
+  intros items p s Hi Hc.
+  destruct (concat_split (units items) p s) as [H|[a [u [b [x [y [E1 [E2 [E3 [E4 [E5 E6]]]]]]]]]]].
+  - rewrite units_concat. exact Hi.
+  - exact H.
+  - exfalso. pose proof (units_inside items a u b x y E1 E2 E3 E4) as F.
+    subst p s. rewrite rev_app_distr in Hc. congruence.
+Qed.
+
+Definition NoForbidden (lsI : list (list item)) : Prop :=
+  forall a b, lsI = a ++ b -> a <> [] -> b <> [] -> cut_b (rev (concat a)) (concat b) = true.
+
+Lemma group_aux : forall lsI items done todo,
+  units items = done ++ todo -> concat lsI = concat todo -> Forall (fun l => l <> []) lsI ->
+  (forall a b, lsI = a ++ b -> a <> [] -> b <> [] ->
+     cut_b (rev (concat done ++ concat a)) (concat b) = true) ->
+  exists g, concat g = todo /\ Forall (fun k => k <> []) g /\ map (@concat item) g = lsI.
+Proof.
+  induction lsI as [|l1 rest IH]; intros items done todo Hu Hc Hne Hcut.
+  - exists []. simpl in Hc. split; [|split; [constructor|reflexivity]].
+    symmetry. apply concat_nil_nonempty; [|now symmetry].
+    pose proof (units_nonempty items) as Hn. rewrite Hu in Hn. apply Forall_app in Hn. tauto.
+  - apply Forall_cons_iff in Hne. destruct Hne as [Hl1 Hrest].
+    destruct rest as [|l2 rest'].
+    + exists [todo]. simpl in Hc. rewrite app_nil_r in Hc. simpl. rewrite app_nil_r.
+      split; [reflexivity|]. split; [|now rewrite <- Hc].
+      constructor; [|constructor]. intros E. subst todo. simpl in Hc. congruence.
+    + remember (l2 :: rest') as rest eqn:Er.
+      assert (Hrne : rest <> []) by (subst rest; discriminate).
+      assert (Hsne : concat rest <> []).
+      { subst rest. apply Forall_cons_iff in Hrest. destruct Hrest as [H2 _].
+        simpl. destruct l2; [congruence|discriminate]. }
+      assert (Hcut1 : cut_b (rev (concat done ++ l1)) (concat rest) = true).
+      { specialize (Hcut [l1] rest eq_refl). simpl in Hcut. rewrite app_nil_r in Hcut.
+        apply Hcut; [discriminate|exact Hrne]. }
+      assert (Hitems : items = (concat done ++ l1) ++ concat rest).
+      { rewrite <- (units_concat items), Hu, concat_app, <- Hc. simpl. now rewrite app_assoc. }
+      destruct (cut_is_unit_boundary items _ _ Hitems Hcut1) as [a' [b' [Ea [Eca Ecb]]]].
+      assert (Hk : exists k, a' = done ++ k /\ todo = k ++ b' /\ concat k = l1).
+      { rewrite Hu in Ea. apply app_eq_app in Ea. destruct Ea as [m [[E1 E2]|[E1 E2]]].
+        - exfalso. subst done. rewrite concat_app in Eca.
+          apply (f_equal (@length _)) in Eca. rewrite !app_length in Eca.
+          destruct l1; [congruence|]. simpl in Eca. lia.
+        - exists m. subst. rewrite concat_app in Eca. apply app_inv_head in Eca. auto. }
+      destruct Hk as [k [Ek1 [Ek2 Ek3]]].
+      destruct (IH items a' b') as [g [Eg1 [Eg2 Eg3]]].
+      * rewrite <- Ea. reflexivity.
+      * exact (eq_sym Ecb).
+      * exact Hrest.
+      * intros a b Eab Ha Hb. rewrite Eca.
+        specialize (Hcut (l1 :: a) b). simpl in Hcut. rewrite <- app_assoc.
+        apply Hcut; [now rewrite Eab|discriminate|exact Hb].
+      * exists (k :: g). simpl. rewrite Eg1, Eg3, Ek3. split; [now symmetry|]. split; [|reflexivity].
+        constructor; [|exact Eg2]. intros E. subst k. simpl in Ek3. congruence.
+Qed.
+
+Theorem lines_are_unit_groups : forall items lsI,
+  concat lsI = items -> Forall (fun l => l <> []) lsI -> NoForbidden lsI ->
+  exists g, Partition (units items) g /\ flat g = lsI.
+Proof.
+  intros items lsI Hc Hne Hnf.
+  destruct (group_aux lsI items [] (units items)) as [g [E1 [E2 E3]]]; auto.
+  - now rewrite units_concat.
+  - exists g. split; [split; assumption|exact E3].
+Qed.
+
+(* the line partition of the ITEM list is determined: any division into non-empty lines
+   that only breaks at cut positions and whose unit grouping fits, is maximal and respects
+   forced breaks is the one of break_lines *)
+Theorem break_unique_items : forall avail indent items lsI,
+  wf items -> concat lsI = items -> Forall (fun l => l <> []) lsI -> NoForbidden lsI ->
+  (forall g, Partition (units items) g -> flat g = lsI ->
+     Fits avail (avail - indent) g /\ Maximal avail (avail - indent) g /\ Forced g) ->
+  lsI = flat (break_lines avail indent items).
+Proof.
+  intros avail indent items lsI Hwf Hc Hne Hnf H.
+  destruct (lines_are_unit_groups items lsI Hc Hne Hnf) as [g [Hp Hg]].
+  destruct (H g Hp Hg) as [Hf [Hm Hfo]].
+  rewrite <- Hg. f_equal. apply break_unique; assumption.
+Qed.
